@@ -14,6 +14,9 @@ func c01Layers(c *Ctx) []sweepLayer {
 	all := flagSets("NBIWRFY", ns)
 	cov := coveringFlags(ns)
 	four := []Flags{{}, {N: true, B: true, F: []string{ns}}, {Y: true, I: true, W: true}, {N: true, B: true, R: customReplacement, Y: true, F: []string{ns}}}
+	// the empty replacement text, alone and next to each other mode
+	empties := []Flags{{REmpty: true}, {REmpty: true, Y: true}, {REmpty: true, N: true, B: true, F: []string{ns}}, {REmpty: true, Y: true, W: true, I: true}, {REmpty: true, W: true}}
+	all = append(all, empties...)
 	if c.Thorough() {
 		return []sweepLayer{
 			{"L0", GenOpts{}, 0, all},
@@ -149,7 +152,7 @@ func c01Run(c *Ctx) {
 		}
 	})
 	// the real CLI flag wiring: one run per flag set over the L0 corpus
-	cliCorpusPass(c, "L0", corpus, flagSets("NBIWRFY", "dbZq1.coQx7"), false)
+	cliCorpusPass(c, "L0", corpus, append(flagSets("NBIWRFY", "dbZq1.coQx7"), Flags{REmpty: true}, Flags{REmpty: true, Y: true}, Flags{REmpty: true, N: true, B: true, F: []string{"dbZq1.coQx7"}}, Flags{REmpty: true, Y: true, W: true, I: true}), false)
 }
 
 func init() {
